@@ -34,12 +34,83 @@ type bodyElement struct {
 }
 
 // paragraphXML represents a paragraph element (<w:p>).
+//
+// A paragraph's runs can sit directly in the paragraph or inside inline containers
+// (hyperlinks, tracked insertions, smart tags, content controls, simple fields). The
+// element is decoded by hand so that Runs lists every run of the paragraph in document
+// order, wherever it is nested; Hyperlinks additionally records each link with its runs.
 type paragraphXML struct {
-	XMLName       xml.Name          `xml:"p"`
-	Properties    paragraphPropsXML `xml:"pPr"`
-	Runs          []runXML          `xml:"r"`
-	Hyperlinks    []hyperlinkXML    `xml:"hyperlink"`
-	BookmarkStart []bookmarkXML     `xml:"bookmarkStart"`
+	XMLName       xml.Name
+	Properties    paragraphPropsXML
+	Runs          []runXML
+	Hyperlinks    []hyperlinkXML
+	BookmarkStart []bookmarkXML
+}
+
+// inlineContainers are the elements of a paragraph whose content is part of the
+// paragraph's text flow. Deleted and moved-away text (w:del, w:moveFrom) and everything
+// else is skipped.
+var inlineContainers = map[string]bool{
+	"hyperlink": true, "ins": true, "moveTo": true, "smartTag": true, "sdt": true,
+	"sdtContent": true, "fldSimple": true, "customXml": true, "dir": true, "bdo": true,
+}
+
+// UnmarshalXML decodes a paragraph, collecting its runs in document order.
+func (p *paragraphXML) UnmarshalXML(d *xml.Decoder, start xml.StartElement) error {
+	p.XMLName = start.Name
+	depth := 0
+	link, linkDepth := -1, 0
+	for {
+		tok, err := d.Token()
+		if err != nil {
+			return err
+		}
+		switch t := tok.(type) {
+		case xml.StartElement:
+			switch {
+			case t.Name.Local == "pPr" && depth == 0:
+				err = d.DecodeElement(&p.Properties, &t)
+			case t.Name.Local == "r":
+				var run runXML
+				if err = d.DecodeElement(&run, &t); err == nil {
+					p.Runs = append(p.Runs, run)
+					if link >= 0 {
+						p.Hyperlinks[link].Runs = append(p.Hyperlinks[link].Runs, run)
+					}
+				}
+			case t.Name.Local == "bookmarkStart":
+				var b bookmarkXML
+				if err = d.DecodeElement(&b, &t); err == nil {
+					p.BookmarkStart = append(p.BookmarkStart, b)
+				}
+			case inlineContainers[t.Name.Local]:
+				if t.Name.Local == "hyperlink" && link < 0 {
+					h := hyperlinkXML{}
+					for _, a := range t.Attr {
+						if a.Name.Local == "id" {
+							h.ID = a.Value
+						}
+					}
+					p.Hyperlinks = append(p.Hyperlinks, h)
+					link, linkDepth = len(p.Hyperlinks)-1, depth
+				}
+				depth++
+			default:
+				err = d.Skip()
+			}
+			if err != nil {
+				return err
+			}
+		case xml.EndElement:
+			if depth == 0 {
+				return nil
+			}
+			depth--
+			if link >= 0 && depth == linkDepth {
+				link = -1
+			}
+		}
+	}
 }
 
 // paragraphPropsXML represents paragraph properties (<w:pPr>).
@@ -99,15 +170,88 @@ type outlineLvlXML struct {
 }
 
 // runXML represents a text run (<w:r>).
+//
+// A run's children (text, tabs, breaks, symbols, ...) are kept in typed slices; Order
+// records the sequence in which they appeared so that the run's text can be assembled
+// in document order (see runText). It is filled by UnmarshalXML; a runXML built by
+// hand without Order is read slice by slice.
 type runXML struct {
-	XMLName          xml.Name              `xml:"r"`
-	Properties       runPropsXML           `xml:"rPr"`
-	Text             []textXML             `xml:"t"`
-	Tabs             []tabXML              `xml:"tab"`
-	Breaks           []breakXML            `xml:"br"`
-	Drawing          []drawingXML          `xml:"drawing"`
-	Symbols          []symXML              `xml:"sym"`
-	AlternateContent []alternateContentXML `xml:"AlternateContent"`
+	XMLName          xml.Name
+	Properties       runPropsXML
+	Text             []textXML
+	Tabs             []tabXML
+	Breaks           []breakXML
+	Drawing          []drawingXML
+	Symbols          []symXML
+	AlternateContent []alternateContentXML
+	Order            []runChild
+}
+
+// runChild identifies one text-producing child of a run: its kind and its index in
+// the corresponding slice of runXML.
+type runChild struct {
+	Kind  byte // 't' text, 'T' tab, 'b' break, 's' symbol, 'a' alternate content
+	Index int
+}
+
+// UnmarshalXML decodes a run, remembering the order of its children.
+func (r *runXML) UnmarshalXML(d *xml.Decoder, start xml.StartElement) error {
+	r.XMLName = start.Name
+	for {
+		tok, err := d.Token()
+		if err != nil {
+			return err
+		}
+		switch t := tok.(type) {
+		case xml.StartElement:
+			switch t.Name.Local {
+			case "rPr":
+				err = d.DecodeElement(&r.Properties, &t)
+			case "t":
+				var v textXML
+				if err = d.DecodeElement(&v, &t); err == nil {
+					r.Text = append(r.Text, v)
+					r.Order = append(r.Order, runChild{'t', len(r.Text) - 1})
+				}
+			case "tab":
+				var v tabXML
+				if err = d.DecodeElement(&v, &t); err == nil {
+					r.Tabs = append(r.Tabs, v)
+					r.Order = append(r.Order, runChild{'T', len(r.Tabs) - 1})
+				}
+			case "br", "cr":
+				var v breakXML
+				if err = d.DecodeElement(&v, &t); err == nil {
+					r.Breaks = append(r.Breaks, v)
+					r.Order = append(r.Order, runChild{'b', len(r.Breaks) - 1})
+				}
+			case "drawing":
+				var v drawingXML
+				if err = d.DecodeElement(&v, &t); err == nil {
+					r.Drawing = append(r.Drawing, v)
+				}
+			case "sym":
+				var v symXML
+				if err = d.DecodeElement(&v, &t); err == nil {
+					r.Symbols = append(r.Symbols, v)
+					r.Order = append(r.Order, runChild{'s', len(r.Symbols) - 1})
+				}
+			case "AlternateContent":
+				var v alternateContentXML
+				if err = d.DecodeElement(&v, &t); err == nil {
+					r.AlternateContent = append(r.AlternateContent, v)
+					r.Order = append(r.Order, runChild{'a', len(r.AlternateContent) - 1})
+				}
+			default:
+				err = d.Skip()
+			}
+			if err != nil {
+				return err
+			}
+		case xml.EndElement:
+			return nil
+		}
+	}
 }
 
 // symXML represents a symbol character (<w:sym>).
